@@ -1300,6 +1300,39 @@ def trig_f04i(src: str) -> bool:
     return False
 
 
+def trig_f04k(src: str) -> bool:
+    """trigger of finding F04k: the text of a comment ends with a colon (`(:::)`, `(: a::)`)"""
+    return '::)' in src
+
+
+def trig_f04l(src: str) -> bool:
+    """trigger of finding F04l: comments stand between `(` or `,` and a `?`"""
+    import re
+    return re.search(r'[(,]\s*(\(:[^()]*:\)\s*)+\?', src) is not None
+
+
+def comment_tags(src: str) -> list:
+    return [f for f, t in (('F04i', trig_f04i), ('F04k', trig_f04k), ('F04l', trig_f04l)) if t(src)]
+
+
+def keyword_prefix_pass(run: Run) -> None:
+    """every symbol of the parser that is an NCName can be the prefix of a QName (XPath has no reserved words)"""
+    import re
+    st = run.stats
+    for v in ALL_VERSIONS:
+        table = parser(v).symbol_table
+        for k in sorted(x for x in table if re.fullmatch(r'[A-Za-z_][\w.\-]*', x)):
+            for src, want in ((f'{k}:n1', f'(: ({k}) (n1))'), (f'n2 | {k}:*', f'(| (n2) (: ({k}) (*)))')):
+                if v == '10' and '|' in src and False:
+                    continue
+                got = full_parse_tree(v, src, namespaces={k: 'urn:c04:' + k, 'x': 'urn:c04:x'})
+                st.evaluations += 1
+                st.count('keyword-prefix')
+                if got != want:
+                    run.disagree(Disagreement({'version': v, 'source': src}, got, None, want, what='hand-written-tree',
+                                              site='PrefixedNameToken.__init__', tags=['F04m']))
+
+
 def whitespace_pass(run: Run, cases: list[tuple[str, list]]) -> None:
     tabs = tables()
     st = run.stats
@@ -1309,7 +1342,7 @@ def whitespace_pass(run: Run, cases: list[tuple[str, list]]) -> None:
         if canon(got) != canon(base):
             run.disagree(Disagreement({'version': ver, 'source': base_src, 'variant': src}, canon(got), None, canon(base),
                                       what='whitespace-comment-invariance', site='tokenizer / XPath2Parser.advance',
-                                      tags=['F04i'] if trig_f04i(src) else []))
+                                      tags=comment_tags(src)))
     for ver, toks in cases:
         rows = tabs[ver]
         base_src = render(rows, toks)
@@ -1325,7 +1358,7 @@ def whitespace_pass(run: Run, cases: list[tuple[str, list]]) -> None:
                 run.disagree(Disagreement({'version': ver, 'source': base_src, 'variant': src}, canon(got), None,
                                           canon(base), what='whitespace-comment-invariance',
                                           site='tokenizer / XPath2Parser.advance',
-                                          tags=['F04i'] if trig_f04i(src) else []))
+                                          tags=comment_tags(src)))
 
 
 # ---------------------------------------------------------------------- (iv) hash seeds
@@ -1353,7 +1386,12 @@ COMMENT_WITNESSES = [('20', 'count(n1)', f'count {_DEEP5} (n1)'), ('20', 'child:
                      ('31', 'map { 1: 2 }', f'map {_DEEP4} {{ 1: 2 }}'), ('20', 'n1 + (n2)', f'n1 {_DEEP5} + {_DEEP5} (n2)'),('20', 'string = (1)', 'string (: x :) = (: y :) (1)'),
                     ('31', "1 cast as xs:string = ('1')", "1 cast as xs:string (: x :) = (: y :) ('1')"),
                     ('20', 'n1 + (n2)', 'n1 (: a :) + (: b :) (n2)'),
-                    ('20', 'child::n1 = n2', 'child (: a :) :: n1 = n2 (: b :)')]
+                    ('20', 'child::n1 = n2', 'child (: a :) :: n1 = n2 (: b :)'),
+                    # comment bodies that end in a colon (F04k), a comment between `(` / `,` and a placeholder (F04l)
+                    ('20', '1 + 2', '1 (:::) + 2'), ('20', '1 + 2', '(: a::) 1 + (::::) 2 (: (:::) ::)'),
+                    ('20', 'n1', '(: x :) (: y :) n1 (: z :)'), ('31', '$v1(?, 1)', '$v1((: c :) ?, 1)'),
+                    ('31', '$v1(1, ?)', '$v1(1, (: c :) (: d :) ?)'), ('31', '$v1(?, 1)', '$v1(? (: c :), 1)'),
+                    ('31', 'n1[?n2]', 'n1[(: c :) ?n2]'), ('31', 'n1?n2', 'n1 (: c :) ?n2')]
 
 
 def hash_corpus(run: Run, n: int) -> list[tuple[str, str]]:
@@ -1779,7 +1817,7 @@ def correspond(run: Run) -> None:
     run.stats.extra['skipped_out_of_fragment'] = skipped
     run.stats.rule = ('token sequences = in-order yield of random trees (1..9 operators quick / 1..12 thorough) over all '
                       'modelled operators of the version (infix, prefix, typed, predicate, call, lookup, comma) with '
-                      'operands name/integer/variable/string (3.1: also unary lookups ?name ?int ?*), every subtree parenthesised with probability 0/0.15/0.4; '
+                      'operands name/integer/variable/string (3.1: also unary lookups ?name ?int ?*), sequence types = 12 bases x occurrence indicator none/?/*/+ with `*`, `+`, `?`-led continuations after the type (occurrence-indicators constraint, normalised by EPV.EBNF.absorbOcc), every subtree parenthesised with probability 0/0.15/0.4; '
                       'compared: tree of the real parser (syntactic phase) vs Lean Pratt model with the generated table vs '
                       'Lean EBNF reference parser; then source round trip (tree, value), whitespace/comment variants, '
                       'hash seeds, tokenizer alternation orders, hand-written trees, constructor-option variants. distinct = distinct token lines with >= 2 operators')
@@ -1813,6 +1851,7 @@ def correspond(run: Run) -> None:
                 run.disagree(Disagreement({'version': v, 'source': s}, back, None, s, what='source-roundtrip',
                                           site='XPathToken.source of a sequence type'))
     expected_pass(run)
+    keyword_prefix_pass(run)
     options_pass(run, cases)
     alternatives_pass(run)
     hashseed_pass(run)
